@@ -56,3 +56,184 @@ package altair
 //@   property C12
 //@   opt noalloc
 //@   ensures r == bv_count(li)
+
+// BEGIN C18 generated (tools/gen_c18.py in /verif)
+// cancelled: a context cancelled before the call makes it fail; surfaced: a cancellation observed by a poll
+// during the call makes it fail; polled: success after a poll means the context was not cancelled at entry.
+
+//@ func ProcessAttestations(ctx, spec, epc, state, ops) err
+//@   property C18
+//@   panics off
+//@   requires ctx != nil
+//@   opt weakcalls
+//@   opt inline=closures
+//@   assigns anything, ghost(ctx_t), ghost(ctx_seen)
+//@   ensures surfaced: !old(ctx_seen) && ctx_seen ==> err != nil
+//@   ensures polled: err == nil && ctx_t > old(ctx_t) ==> !ctx_cancelled(ctx, old(ctx_t))
+//@   ensures time: ctx_t >= old(ctx_t)
+//@   loop *
+//@     invariant ctx_t >= old(ctx_t) && (old(ctx_seen) || !ctx_seen)
+//@     invariant ctx_t > old(ctx_t) ==> !ctx_cancelled(ctx, old(ctx_t))
+
+//@ func ComputeEpochAttesterData(ctx, spec, epc, flats, state) (r0, err)
+//@   property C18
+//@   panics off
+//@   requires ctx != nil
+//@   opt weakcalls
+//@   opt inline=closures
+//@   assigns anything, ghost(ctx_t), ghost(ctx_seen)
+//@   ensures surfaced: !old(ctx_seen) && ctx_seen ==> err != nil
+//@   ensures polled: err == nil && ctx_t > old(ctx_t) ==> !ctx_cancelled(ctx, old(ctx_t))
+//@   ensures time: ctx_t >= old(ctx_t)
+//@   loop *
+//@     invariant ctx_t >= old(ctx_t) && (old(ctx_seen) || !ctx_seen)
+//@     invariant ctx_t > old(ctx_t) ==> !ctx_cancelled(ctx, old(ctx_t))
+
+//@ func ComputeFlagDeltas(ctx, spec, epc, attesterData, flag, weight, isInactivityLeak) (r0, err)
+//@   property C18
+//@   panics off
+//@   requires ctx != nil
+//@   opt weakcalls
+//@   opt inline=closures
+//@   assigns anything, ghost(ctx_t), ghost(ctx_seen)
+//@   ensures surfaced: !old(ctx_seen) && ctx_seen ==> err != nil
+//@   ensures polled: err == nil && ctx_t > old(ctx_t) ==> !ctx_cancelled(ctx, old(ctx_t))
+//@   ensures time: ctx_t >= old(ctx_t)
+//@   loop *
+//@     invariant ctx_t >= old(ctx_t) && (old(ctx_seen) || !ctx_seen)
+//@     invariant ctx_t > old(ctx_t) ==> !ctx_cancelled(ctx, old(ctx_t))
+
+//@ func ComputeInactivityPenaltyDeltas(ctx, spec, epc, attesterData, inactivityScores, inactivityPenaltyQuotient) (r0, err)
+//@   property C18
+//@   panics off
+//@   requires ctx != nil
+//@   opt weakcalls
+//@   opt inline=closures
+//@   assigns anything, ghost(ctx_t), ghost(ctx_seen)
+//@   ensures surfaced: !old(ctx_seen) && ctx_seen ==> err != nil
+//@   ensures polled: err == nil && ctx_t > old(ctx_t) ==> !ctx_cancelled(ctx, old(ctx_t))
+//@   ensures time: ctx_t >= old(ctx_t)
+//@   loop *
+//@     invariant ctx_t >= old(ctx_t) && (old(ctx_seen) || !ctx_seen)
+//@     invariant ctx_t > old(ctx_t) ==> !ctx_cancelled(ctx, old(ctx_t))
+
+//@ func AttestationRewardsAndPenalties(ctx, spec, epc, attesterData, state) (r0, err)
+//@   property C18
+//@   panics off
+//@   requires ctx != nil
+//@   opt weakcalls
+//@   opt inline=closures
+//@   assigns anything, ghost(ctx_t), ghost(ctx_seen)
+//@   ensures cancelled: ctx_cancelled(ctx, old(ctx_t)) ==> err != nil
+//@   ensures surfaced: !old(ctx_seen) && ctx_seen ==> err != nil
+//@   ensures polled: err == nil && ctx_t > old(ctx_t) ==> !ctx_cancelled(ctx, old(ctx_t))
+//@   ensures time: ctx_t >= old(ctx_t)
+//@   loop *
+//@     invariant ctx_t >= old(ctx_t) && (old(ctx_seen) || !ctx_seen)
+//@     invariant ctx_t > old(ctx_t) ==> !ctx_cancelled(ctx, old(ctx_t))
+
+//@ func ProcessEpochRewardsAndPenalties(ctx, spec, epc, attesterData, state) err
+//@   property C18
+//@   panics off
+//@   requires ctx != nil
+//@   opt weakcalls
+//@   opt inline=closures
+//@   assigns anything, ghost(ctx_t), ghost(ctx_seen)
+//@   ensures surfaced: !old(ctx_seen) && ctx_seen ==> err != nil
+//@   ensures polled: err == nil && ctx_t > old(ctx_t) ==> !ctx_cancelled(ctx, old(ctx_t))
+//@   ensures time: ctx_t >= old(ctx_t)
+//@   loop *
+//@     invariant ctx_t >= old(ctx_t) && (old(ctx_seen) || !ctx_seen)
+//@     invariant ctx_t > old(ctx_t) ==> !ctx_cancelled(ctx, old(ctx_t))
+
+//@ func ProcessInactivityUpdates(ctx, spec, attesterData, state) err
+//@   property C18
+//@   panics off
+//@   requires ctx != nil
+//@   opt weakcalls
+//@   opt inline=closures
+//@   assigns anything, ghost(ctx_t), ghost(ctx_seen)
+//@   ensures cancelled: ctx_cancelled(ctx, old(ctx_t)) ==> err != nil
+//@   ensures surfaced: !old(ctx_seen) && ctx_seen ==> err != nil
+//@   ensures polled: err == nil && ctx_t > old(ctx_t) ==> !ctx_cancelled(ctx, old(ctx_t))
+//@   ensures time: ctx_t >= old(ctx_t)
+//@   loop *
+//@     invariant ctx_t >= old(ctx_t) && (old(ctx_seen) || !ctx_seen)
+//@     invariant ctx_t > old(ctx_t) ==> !ctx_cancelled(ctx, old(ctx_t))
+
+//@ func ProcessParticipationFlagUpdates(ctx, spec, state) err
+//@   property C18
+//@   panics off
+//@   requires ctx != nil
+//@   opt weakcalls
+//@   opt inline=closures
+//@   assigns anything, ghost(ctx_t), ghost(ctx_seen)
+//@   ensures cancelled: ctx_cancelled(ctx, old(ctx_t)) ==> err != nil
+//@   ensures surfaced: !old(ctx_seen) && ctx_seen ==> err != nil
+//@   ensures polled: err == nil && ctx_t > old(ctx_t) ==> !ctx_cancelled(ctx, old(ctx_t))
+//@   ensures time: ctx_t >= old(ctx_t)
+//@   loop *
+//@     invariant ctx_t >= old(ctx_t) && (old(ctx_seen) || !ctx_seen)
+//@     invariant ctx_t > old(ctx_t) ==> !ctx_cancelled(ctx, old(ctx_t))
+
+//@ func ProcessSyncAggregate(ctx, spec, epc, state, agg) err
+//@   property C18
+//@   panics off
+//@   requires ctx != nil
+//@   opt weakcalls
+//@   opt inline=closures
+//@   assigns anything, ghost(ctx_t), ghost(ctx_seen)
+//@   ensures cancelled: ctx_cancelled(ctx, old(ctx_t)) ==> err != nil
+//@   ensures surfaced: !old(ctx_seen) && ctx_seen ==> err != nil
+//@   ensures polled: err == nil && ctx_t > old(ctx_t) ==> !ctx_cancelled(ctx, old(ctx_t))
+//@   ensures time: ctx_t >= old(ctx_t)
+//@   loop *
+//@     invariant ctx_t >= old(ctx_t) && (old(ctx_seen) || !ctx_seen)
+//@     invariant ctx_t > old(ctx_t) ==> !ctx_cancelled(ctx, old(ctx_t))
+
+//@ func ProcessSyncCommitteeUpdates(ctx, spec, epc, state) err
+//@   property C18
+//@   panics off
+//@   requires ctx != nil
+//@   opt weakcalls
+//@   opt inline=closures
+//@   assigns anything, ghost(ctx_t), ghost(ctx_seen)
+//@   ensures cancelled: ctx_cancelled(ctx, old(ctx_t)) ==> err != nil
+//@   ensures surfaced: !old(ctx_seen) && ctx_seen ==> err != nil
+//@   ensures polled: err == nil && ctx_t > old(ctx_t) ==> !ctx_cancelled(ctx, old(ctx_t))
+//@   ensures time: ctx_t >= old(ctx_t)
+//@   loop *
+//@     invariant ctx_t >= old(ctx_t) && (old(ctx_seen) || !ctx_seen)
+//@     invariant ctx_t > old(ctx_t) ==> !ctx_cancelled(ctx, old(ctx_t))
+
+//@ func (state *BeaconStateView) ProcessEpoch(ctx, spec, epc) err
+//@   property C18
+//@   panics off
+//@   requires ctx != nil
+//@   opt weakcalls
+//@   opt inline=closures
+//@   assigns anything, ghost(ctx_t), ghost(ctx_seen)
+//@   ensures cancelled: ctx_cancelled(ctx, old(ctx_t)) ==> err != nil
+//@   ensures surfaced: !old(ctx_seen) && ctx_seen ==> err != nil
+//@   ensures polled: err == nil && ctx_t > old(ctx_t) ==> !ctx_cancelled(ctx, old(ctx_t))
+//@   ensures time: ctx_t >= old(ctx_t)
+//@   loop *
+//@     invariant ctx_t >= old(ctx_t) && (old(ctx_seen) || !ctx_seen)
+//@     invariant ctx_t > old(ctx_t) ==> !ctx_cancelled(ctx, old(ctx_t))
+
+//@ func (state *BeaconStateView) ProcessBlock(ctx, spec, epc, benv) err
+//@   property C18
+//@   panics off
+//@   requires ctx != nil
+//@   opt weakcalls
+//@   opt inline=closures
+//@   assigns anything, ghost(ctx_t), ghost(ctx_seen)
+//@   ensures cancelled: ctx_cancelled(ctx, old(ctx_t)) ==> err != nil
+//@   ensures surfaced: !old(ctx_seen) && ctx_seen ==> err != nil
+//@   ensures polled: err == nil && ctx_t > old(ctx_t) ==> !ctx_cancelled(ctx, old(ctx_t))
+//@   ensures time: ctx_t >= old(ctx_t)
+//@   loop *
+//@     invariant ctx_t >= old(ctx_t) && (old(ctx_seen) || !ctx_seen)
+//@     invariant ctx_t > old(ctx_t) ==> !ctx_cancelled(ctx, old(ctx_t))
+
+// END C18 generated
